@@ -109,6 +109,15 @@ func entTok(val []byte, ts uint64, flags uint32) string {
 }
 
 func genC02Oracle(g *Gen, n int) {
+	genC02Perm(g, n, true)
+}
+
+// genMergeOrder: the order-independence oracle without a stale-deletion cut-off (C01: with a
+// cut-off the order can matter for stale markers - finding D12 of C02 - which is not a
+// convergence question)
+func genMergeOrder(g *Gen, n int) { genC02Perm(g, n, false) }
+
+func genC02Perm(g *Gen, n int, withCutoff bool) {
 	// all triples over a small well-formed universe, all format versions
 	type ent struct {
 		v  []byte
@@ -164,6 +173,10 @@ func genC02Oracle(g *Gen, n int) {
 			old = mkStored(base, 3, 0, 0, g.R.Intn(2), 0, randBytes(g.R, g.R.Intn(3)))
 		}
 		g.Emit("perm-rand", fmt.Sprintf("prop.c02.perm %d %s 9 %s %s", 1+g.R.Intn(3), b2s(g.R.Intn(3) == 0), hx(old), strings.Join(toks, " ")))
+	}
+	if !withCutoff {
+		genMergeStep(g, n)
+		return
 	}
 	// with a cut-off: all triples again (timestamps 1..3 against cut-offs 2 and 3)
 	cnt = 0
